@@ -39,7 +39,7 @@ def T(mod, *names, advisory=False):
 TIE_PREC = T('SqTie.Prec', 'prec_tie')
 TIE_TOK = T('SqTie.Tokens', 'tokens_tie', 'reserved_tie', 'reserved_unused_tie')
 TIE_LEX = T('SqTie.LexRules', 'lexrules_tie', 'lexignore_tie')
-TIE_GRAM = T('SqTie.Grammar', 'grammar_tie')
+TIE_GRAM = T('SqTie.Grammar', 'grammar_tie', 'cfg_is_generated')
 TIE_FN = T('SqTie.Functions', 'functions_tie')
 TIE_CONST = T('SqTie.Consts', 'max_array_size_tie', 'cast_dict_keys_tie', 'default_budget_tie', 'numeric_types_tie')
 TIE_RX = T('SqTie.Regex', 'regex_timeout_tie', 'regex_sites_tie')
@@ -65,7 +65,7 @@ PROPS = {
                 pending=['regex_cost_bound (abstract cost model under "the engine honours its timeout")']),
     'C06': dict(obligations=lambda: P('SqProps.C06') + TIE_PREC + TIE_TOK + TIE_LEX + TIE_GRAM,
                 slices=['parse_tok', 'parse_rand', 'lex_chars'], monitors=['c06'],
-                pending=['reads_derives (the levelled relation is a sub-relation of the plain CFG of the generated productions); completeness AND soundness w.r.t. the levelled relation are proved']),
+                pending=[]),
     'C07': dict(obligations=lambda: P('SqProps.C07') + TIE_FN + TIE_CONST,
                 slices=['prog', 'ops'], monitors=[],
                 pending=['frame_lemma (compositionality of the machine)']),
